@@ -978,6 +978,9 @@ Error RALocalAllocator::alloc_instruction(InstNode* node) noexcept {
 
                 RAWorkReg* work_reg = consecutive_regs[i]->work_reg();
                 score += uint32_t(work_reg->home_reg_id() == consecutive_index);
+
+                // Prefer registers that are not live, otherwise they would have to be spilled.
+                score += uint32_t(!Support::bit_test(live_regs, consecutive_index)) * 2;
               }
 
               if (score > best_score) {
@@ -1032,6 +1035,11 @@ Error RALocalAllocator::alloc_instruction(InstNode* node) noexcept {
           else {
             phys_id = decide_on_assignment(group, work_reg, RAAssignment::kPhysNone, allocable_regs & ~live_regs);
           }
+        }
+        else if (_cur_assignment.is_phys_assigned(group, phys_id)) {
+          // The OUT register was decided in advance (consecutive registers) and it's still occupied - spill the occupant.
+          RAWorkId spill_work_id = _cur_assignment.phys_to_work_id(group, phys_id);
+          ASMJIT_PROPAGATE(on_spill_reg(group, work_reg_by_id(spill_work_id), spill_work_id, phys_id));
         }
 
         // OUTs are CLOBBERed thus cannot be ASSIGNed right now.
